@@ -260,7 +260,8 @@ pub fn decode_bytes_from_inscription_data(mut inscription_data: &str) -> Option<
     match compression_method {
         0x00 => {
             // Uncompressed
-            if base64_decoded.len() > CALLDATA_LIMIT {
+            // The limit applies to the payload, not to the payload plus the prefix byte
+            if base64_decoded.len() - 1 > CALLDATA_LIMIT {
                 None
             } else {
                 Some(Bytes::from(base64_decoded[1..].to_vec()))
@@ -268,7 +269,8 @@ pub fn decode_bytes_from_inscription_data(mut inscription_data: &str) -> Option<
         }
         0x01 => {
             // Nada
-            nada::decode_with_limit(base64_decoded[1..].iter().cloned(), CALLDATA_LIMIT)
+            // decode_with_limit rejects outputs of `limit` bytes or more, CALLDATA_LIMIT itself is allowed
+            nada::decode_with_limit(base64_decoded[1..].iter().cloned(), CALLDATA_LIMIT + 1)
                 .ok()
                 .map(Bytes::from)
         }
